@@ -143,7 +143,11 @@ def build_helpers():
             dst = os.path.join(outd, f[:-2])
             src = os.path.join(hd, f)
             if not os.path.exists(dst) or os.path.getmtime(dst) < os.path.getmtime(src):
-                rc, out = run(["cc", "-O1", "-o", dst, src])
+                flags = []
+                m = re.search(r"BUILD:\s*(\S.*)", open(src).read(400))
+                if m:
+                    flags = m.group(1).split()
+                rc, out = run(["cc", "-O1"] + flags + ["-o", dst, src])
                 if rc != 0:
                     raise BuildError("helper %s: %s" % (f, out))
     return outd
